@@ -86,8 +86,7 @@ def handle (input : Json) : Except String Json := do
         let base : List (String × Json) := [
           ("exit", if miss.isEmpty then (0 : Nat) else (1 : Nat)),
           ("mocks", Json.arr (rows.map (fun (a, b, c) => Json.arr #[Json.str a, Json.str b, Json.str c])))]
-        if !miss.isEmpty then return Json.mkObj base
-        -- from the selected mocks to output files
+        -- from the selected mocks to output files (a conflict stops the run before missing interfaces are reported)
         let table := srcInfoTable (← Driver.fldArr input "srcs")
         let srcOf : String → String → Mockery.Run.SrcInfo := fun p i =>
           ((table.find? (fun e => e.1 == (p, i))).map (·.2)).getD ⟨"/MOD/unknown.go", "unknown", true⟩
@@ -99,6 +98,7 @@ def handle (input : Json) : Except String Json := do
           | .error _ => pure fail
           | .ok cs =>
             let files := (cs.map (fun c => (relPath c.path, c.pkgName, c.mocks.map (fun pm => (pm.iface, pm.structName))))).toArray.qsort (fun a b => a.1 < b.1)
+            if !miss.isEmpty then return Json.mkObj base
             pure (Json.mkObj (base ++ [("files", Json.arr (files.map (fun (p, pn, ms) =>
               Json.arr #[Json.str p, Json.str pn, Json.arr (ms.map (fun (i, sn) => Json.arr #[Json.str i, Json.str sn])).toArray])))]))
 
